@@ -301,6 +301,7 @@ func dirsMain(path, modeOverride string) int {
 				return 2
 			}
 			id, roots, maxdir := "?", 1, 100
+			rootform := "clean"
 			if len(t) > 1 {
 				id = t[1]
 			}
@@ -314,6 +315,8 @@ func dirsMain(path, modeOverride string) int {
 					roots, _ = strconv.Atoi(v)
 				case "maxdir":
 					maxdir, _ = strconv.Atoi(v)
+				case "rootform":
+					rootform = v
 				}
 			}
 			if modeOverride != "" {
@@ -324,7 +327,14 @@ func dirsMain(path, modeOverride string) int {
 			}
 			e.cfg.Storage.DbPath = filepath.Join(dir, "db")
 			for i := 0; i < roots; i++ {
-				e.cfg.Storage.RootDirs = append(e.cfg.Storage.RootDirs, filepath.Join(dir, fmt.Sprintf("r%d", i)))
+				rp := filepath.Join(dir, fmt.Sprintf("r%d", i))
+				switch rootform {
+				case "slash":
+					rp += "/"
+				case "dot":
+					rp = dir + "/./" + fmt.Sprintf("r%d", i)
+				}
+				e.cfg.Storage.RootDirs = append(e.cfg.Storage.RootDirs, rp)
 				e.idx = append(e.idx, map[string]int{})
 			}
 			e.cfg.Storage.MaxDirCount = uint64(maxdir)
